@@ -37,6 +37,8 @@ Inductive effect :=
 | ERead (t : target) (n : string)                  (* a read of the lazily loaded attribute n *)
 | ETouchPublic (n : string)                        (* if table is not default_table(): getattr(default_table()[0], n, None)
                                                       (not in today's source) *)
+| ESub (t : target) (n : string) (k : vkind)       (* atom.n[key] = ... / atom.n.field = ... / x.append(...) on the object
+                                                      held by atom.n: the kind of object that becomes reachable from it *)
 | ECall (f : string).                              (* helper(table) *)
 
 Record registration := mkReg {
